@@ -32,14 +32,16 @@ JudgeRun(g, s, ref) ==
       ncalls == Len(s.calls)
       step(acc, k) ==
         LET c == s.calls[k]
-            delivered == acc.delivered \o c.out
+            \* bytes handed over so far are compared incrementally: dok = every chunk so far equals the next bytes of the reference decode
+            dlen == acc.dlen + Len(c.out)
+            dok == acc.dok /\ dlen <= Len(ref.out) /\ (Len(c.out) = 0 \/ c.out = SubSeq(ref.out, acc.dlen + 1, dlen))
             \* after a negative (error) return the input counters are not relied upon (no property constrains them; the guard pages
             \* of the harness still catch any real access outside the buffers); writing beyond avail_out is never allowed
             v1 == (IF (c.ret >= 0 /\ c.c > c.ai) \/ c.p > c.ao \/ c.touched_outside # 0 THEN {<<k, "I1-wrote-or-read-beyond-avail">>} ELSE {})
                   \cup (IF c.ret >= 0 /\ (Len(c.out) # c.p \/ c.dto # c.p) THEN {<<k, "I1-total_out-disagrees-with-pointer-advance">>} ELSE {})
             \* bytes handed over by a call that reports no error must be the next bytes of the reference decode (what a call
             \* returns together with an error code is not relied upon: the property only constrains reported success)
-            v2 == IF c.ret >= 0 /\ ~IsPrefixOf(delivered, ref.out) THEN {<<k, "I2-delivered-bytes-differ-from-reference-decode">>} ELSE {}
+            v2 == IF c.ret >= 0 /\ ~dok THEN {<<k, "I2-delivered-bytes-differ-from-reference-decode">>} ELSE {}
             v3 == (IF c.ret \notin Documented(s.api) THEN {<<k, "I3-undocumented-return-code">>} ELSE {})
                   \cup (IF c.ret < 0 /\ ref.tag = "Valid" /\ ~lenient THEN {<<k, "I3-valid-stream-rejected">>} ELSE {})
                   \cup (IF c.ret = 6 /\ ~(RefWrap(g.wrap) = "zlib" /\ ref.hdr.st = "ok" /\ ref.hdr.fields.dict_flag) THEN {<<k, "I3-dictionary-requested-without-FDICT">>} ELSE {})
@@ -47,7 +49,7 @@ JudgeRun(g, s, ref) ==
             v4 == IF ~fin THEN {}
                   \* (`lenient` only lets the implementation REJECT what the RFC does not clearly forbid; success always needs a stream the spec decodes)
                   ELSE (IF ref.tag # "Valid" THEN {<<k, "I4-finished-a-stream-the-spec-rejects-" \o ref.tag \o "-" \o ref.class>>} ELSE {})
-                       \cup (IF ref.tag = "Valid" /\ delivered # ref.out THEN {<<k, "I4-finished-with-different-output">>} ELSE {})
+                       \cup (IF ref.tag = "Valid" /\ ~(dok /\ dlen = Len(ref.out)) THEN {<<k, "I4-finished-with-different-output">>} ELSE {})
                        \cup (IF ref.tag = "Valid" /\ c.fed - c.ain - (c.ril \div 8) # ref.endByte THEN {<<k, "I4-reported-input-position-is-not-the-end-of-stream">>} ELSE {})
                        \cup (IF ref.tag = "Valid" /\ ChecksumKind(g.wrap) = "crc32" /\ <<c.crc_lo, c.crc_hi>> # Crc32(ref.out) THEN {<<k, "I4-state-crc-differs-from-CRC32-of-output">>} ELSE {})
                        \cup (IF ref.tag = "Valid" /\ ChecksumKind(g.wrap) = "adler32" /\ <<c.crc_lo, c.crc_hi>> # Adler32(ref.out) THEN {<<k, "I4-state-crc-differs-from-Adler32-of-output">>} ELSE {})
@@ -64,9 +66,9 @@ JudgeRun(g, s, ref) ==
                   ELSE IF m2tup \in IsRel THEN {} ELSE {<<k, "M2-state-transition-not-in-the-model">>}
             cov == IF m2app /\ c.ret >= 0 THEN acc.cov \cup {m2tup} ELSE acc.cov
             vx == IF s.expect_ret # 0 /\ ref.tag = "Invalid" /\ c.ret < 0 /\ c.ret # s.expect_ret THEN {<<k, "I3-wrong-error-class-for-single-fault">>} ELSE {}
-        IN [delivered |-> delivered, viol |-> acc.viol \cup v1 \cup v2 \cup v3 \cup v4 \cup v6 \cup v7 \cup vx, stall |-> stall, finished |-> acc.finished \/ fin,
+        IN [dlen |-> dlen, dok |-> dok, viol |-> acc.viol \cup v1 \cup v2 \cup v3 \cup v4 \cup v6 \cup v7 \cup vx, stall |-> stall, finished |-> acc.finished \/ fin,
             sawerr |-> acc.sawerr \/ c.ret < 0, space_short |-> acc.space_short \/ (c.ret = 2), drift |-> acc.drift \cup m2, cov |-> cov]
-      a == FoldLeft(step, [delivered |-> <<>>, viol |-> {}, stall |-> 0, finished |-> FALSE, sawerr |-> FALSE, space_short |-> FALSE, drift |-> {}, cov |-> {}], Range1(ncalls))
+      a == FoldLeft(step, [dlen |-> 0, dok |-> TRUE, viol |-> {}, stall |-> 0, finished |-> FALSE, sawerr |-> FALSE, space_short |-> FALSE, drift |-> {}, cov |-> {}], Range1(ncalls))
       \* I5 completion: a valid stream, fully supplied, with space always offered, must finish
       v5 == IF s.end.why = "fault" THEN {<<ncalls, "C05-memory-fault-in-call">>}
             ELSE IF s.end.why = "stalled" THEN {<<ncalls, "I6-no-progress-with-input-and-space-available">>}
@@ -76,7 +78,7 @@ JudgeRun(g, s, ref) ==
       \* injected fault made the stream invalid: shortening a code of an incomplete set can leave a perfectly valid stream)
       v8 == IF s.expect_ret # 0 /\ ref.tag = "Invalid" /\ ~a.sawerr /\ s.complete_supply /\ ~a.space_short THEN {<<ncalls, "I3-injected-fault-not-reported">>} ELSE {}
   IN [scn |-> s.scn, viol |-> SetToSeq(a.viol \cup v5 \cup v8), drift |-> SetToSeq(a.drift), cov |-> SetToSeq(a.cov), ref |-> ref.tag, class |-> ref.class, lenient |-> lenient, finished |-> a.finished,
-      nout |-> Len(ref.out), delivered |-> Len(a.delivered),
+      nout |-> Len(ref.out), delivered |-> a.dlen,
       nblocks |-> IF "d" \in DOMAIN ref THEN Len(ref.d.blocks) ELSE 0,
       types |-> IF "d" \in DOMAIN ref THEN [i \in 1..Len(ref.d.blocks) |-> ref.d.blocks[i].type] ELSE <<>>,
       maxdist |-> IF "d" \in DOMAIN ref THEN FoldLeft(LAMBDA m, b : MaxN(m, b.maxDist), 0, ref.d.blocks) ELSE 0]
